@@ -35,6 +35,8 @@ func main() {
 			"AuthorizedServer locations are 0..255 bytes (the layout's u8 length field); longer locations are not encodable in the documented layout and are outside the generators",
 			"floats are all finite classes (+-0, subnormals, +-MaxFloat64, random finite bit patterns); NaN and Inf are outside the property ('NaN-free') and JSON cannot carry them",
 			"AuthorizedServer, EquipmentMigration and GCARegistration have no binary decoder in the repository; for them encode and signing bytes are judged, decoding is judged through the real JSON endpoints",
+			"disk-level length probes start the real server on copies of a directory a real server wrote, with one file extended by part of a next valid record / random bytes or cut inside its last record: equipment-authorizations.dat and equipment-reports.dat must be refused at start; for allDeviceStats.dat refusal and 'start succeeds, the incomplete trailing record is dropped from memory and file' are both accepted (the tree does the latter on purpose, fix ad3b1c3)",
+			"migration orders of exactly N bytes (N around 64955 = 65535-580, the largest order whose sync reply fits the u16 length prefix) are built from validly signed entries with tuned location lengths; above the limit the endpoint must refuse and the device's raw sync reply must stay order-free and decodable, at and below it the raw sync reply must decode (reference parser) to exactly that order",
 			"bit flips: all bits of signing bytes, signature and key for messages up to 4096 bits; for the 32 KiB-per-device statistics records all bits of the first 96 and last 16 bytes plus a seeded random sample",
 		},
 		Plan:  plan,
@@ -47,7 +49,7 @@ func plan(tier string, seed int64) []run.Batch {
 	var bs []run.Batch
 	add := func(kind string, n int, params map[string]string) {
 		to := 300 // pure function batches host no server or client (which would panic by design after 120 s)
-		if kind == "json" {
+		if kind == "json" || kind == "disklen" || kind == "migsize" {
 			to = 110
 		}
 		bs = append(bs, run.Batch{Kind: kind, Seed: seed*1000 + int64(len(bs)), N: n, TimeoutS: to, Params: params})
@@ -74,6 +76,10 @@ func plan(tier string, seed int64) []run.Batch {
 	for i := 0; i < pick(3, 12); i++ {
 		add("json", pick(200, 300), nil)
 	}
+	for i := 0; i < pick(2, 6); i++ {
+		add("disklen", 0, nil)
+		add("migsize", 0, nil)
+	}
 	// the same case list in two processes: signatures must be identical
 	bs = append(bs, run.Batch{Kind: "signdet", Seed: seed * 7919, N: pick(64, 512), TimeoutS: 300, Params: map[string]string{"proc": "a"}})
 	bs = append(bs, run.Batch{Kind: "signdet", Seed: seed * 7919, N: pick(64, 512), TimeoutS: 300, Params: map[string]string{"proc": "b"}})
@@ -94,6 +100,10 @@ func child(b run.Batch, r *ev.Result) {
 		childJSON(b, r)
 	case "signdet":
 		childSignDet(b, r)
+	case "disklen":
+		childDiskLen(b, r)
+	case "migsize":
+		childMigSize(b, r)
 	default:
 		r.Inconc("unknown batch kind " + b.Kind)
 	}
@@ -108,8 +118,13 @@ func post(c *ev.Check, outs []*run.Outcome) {
 		"inj.perturbations", "crosstype.pairs", "sign.deterministic", "sign.equals_goethereum", "verify.accepts_valid", "verify.accepts_other_valid_signature",
 		"verify_bitflips", "verify.wrong_key", "json.post_accepted", "json.get_compared", "json.file_records_compared", "json.forwarded_compared", "json.after_restart_compared",
 		"json.float_class.negzero", "json.float_class.subnormal", "json.float_class.max", "servermap.location_65535", "servermap.empty", "stats.empty_stream", "stats.zero_devices",
-		"disk.stats_record_verified"} {
+		"disk.stats_record_verified", "disklen.control_started", "disklen.refused_at_start", "len.disk.equipment-authorizations.dat", "len.disk.equipment-reports.dat", "len.disk.allDeviceStats.dat",
+		"migsize.accepted_and_synced", "migsize.largest_deliverable_order_synced"} {
 		c.Require(k, 1)
+	}
+	c.Require("migsize.oversize_refused", 5)
+	if c.Counter("disklen.stats_partial_record_dropped")+c.Counter("disklen.stats_partial_record_refused") < 1 {
+		c.Inconc("no history file with an incomplete trailing record was judged")
 	}
 	// Sign determinism across processes
 	var a, b []interface{}
